@@ -2,13 +2,13 @@ SPECIFICATION MCSpec
 CONSTANTS Sender = {"s1", "s2"}
           MaxFaults = 3
           MaxCfg = 0
-          Addr = {"A"}
-          Stall = FALSE
+          Addr = {"A", "B"}
+          Stall = TRUE
           QueueMode = FALSE
           QCap = 2
-          MaxConn = 4
+          MaxConn = 3
           Broken = "none"
-          NPacks = 4
+          NPacks = 3
 CONSTRAINT ConnBound
 VIEW MCView
 INVARIANTS TypeOK MutualExclusion FramesWhole FreshStart InOrderAtMostOnce HeaderRight ErrMeansNotDelivered NoLossSafe Recovers WriterErrorJustified
